@@ -377,6 +377,18 @@ fn build_cases(tier: Tier) -> Vec<(String, Vec<Case>)> {
     }
     groups.push(("(iii) option values at and beyond bounds".into(), g));
 
+    // (iii-b) what stdin is while the input is named by path, without SFS_ALLOW_STDIN
+    let mut g = Vec::new();
+    for kind in ["directory", "null", "closed", "empty-file", "file-with-data", "terminal"] {
+        let class = format!("stdin={kind}");
+        g.push(case(&["view"], &sp2, &class, format!("view PATH with stdin = {kind}")));
+        g.push(case(&["fold"], &sp2, &class, format!("fold PATH with stdin = {kind}")));
+        g.push(case(&["stat", "-s", "sum"], &sp2, &class, format!("stat -s sum PATH with stdin = {kind}")));
+        g.push(case(&["create"], &vcf_plain, &class, format!("create PATH with stdin = {kind}")));
+        g.push(case(&["create", "-S", "/nonexistent.samples"], &vcf_plain, &class, format!("create -S missing PATH with stdin = {kind}")));
+    }
+    groups.push(("(iii-b) the kind of stdin while the input is named by path".into(), g));
+
     // (iv) absurd declared shapes
     let mut g = Vec::new();
     for sh in ["4294967296", "4294967296/4294967296", "18446744073709551615", "9999999999999999999", "99999999999999999999", "0", "1/0", "3/3/3/3/3/3/3/3/3/3/3/3/3/3/3/3/3/3/3/3/3/3/3/3/3/3/3/3/3/3/3/3/3/3/3/3/3/3/3/3/3", "-1", "", "2/", "a"] {
@@ -576,7 +588,17 @@ fn run_case(c: &Case, scratch: &Scratch) -> Out {
     let a: Vec<&str> = c.argv.iter().map(|s| s.as_str()).collect();
     // cases of the failing-sink group carry the sink in their class
     if c.class.starts_with("sink=full") {
-        return crate::cli::run_sfs_stdout_to(&a, &c.stdin, std::path::Path::new("/dev/full"), scratch);
+        return crate::cli::run_sfs_stdout_to(&a, &c.stdin, std::path::Path::new(crate::cli::private_device(true)), scratch);
+    }
+    // cases of the stdin group name their input by path (the case's bytes in a scratch file) and say
+    // what stdin is
+    if let Some(kind) = c.class.strip_prefix("stdin=") {
+        let path = scratch.file(".input", &c.stdin);
+        let mut b: Vec<&str> = a.clone();
+        b.push(path.to_str().unwrap());
+        let o = crate::cli::run_sfs_stdin_kind(&b, kind, scratch);
+        let _ = std::fs::remove_file(&path);
+        return o;
     }
     if c.class.starts_with("sink=closed-pipe") {
         return crate::cli::run_sfs_stdout_closed_pipe(&a, &c.stdin, scratch);
